@@ -388,10 +388,14 @@ class Program:
         return base in self.mro(c)
 
     def subclasses(self, c: ClassInfo, strict: bool = False) -> list[ClassInfo]:
-        out = [k for k in self.classes.values() if c in self.mro(k)]
-        if strict:
-            out = [k for k in out if k is not c]
-        return sorted(out, key=lambda k: k.qualname)
+        cache = self.__dict__.setdefault("_sub_cache", {})
+        key = (c.qualname, strict)
+        if key not in cache:
+            out = [k for k in self.classes.values() if c in self.mro(k)]
+            if strict:
+                out = [k for k in out if k is not c]
+            cache[key] = sorted(out, key=lambda k: k.qualname)
+        return list(cache[key])
 
     def lookup(self, c: ClassInfo, name: str) -> FunctionInfo | None:
         for k in self.mro(c):
